@@ -98,11 +98,15 @@ class Ctx:
         return o
 
     def floor(self, what: str, count: int, minimum: int) -> None:
-        if count < minimum:
+        """Vacuity guard.  `minimum` is the count confirmed by hand on the pinned tree; the armed floor is 60% of
+        it (at least 1) so that an ordinary refactoring that merges or removes a few instances is not reported as an
+        analysis failure, while a discovery pattern that stops matching (0 or a small fraction) still aborts."""
+        armed = max(1, int(minimum * 0.6))
+        if count < armed:
             raise AnalysisError(
-                f"{self._rule}: instance floor missed for {what}: found {count}, confirmed {minimum} on the pinned tree"
+                f"{self._rule}: instance floor missed for {what}: found {count}, armed floor {armed} (confirmed {minimum} on the pinned tree)"
             )
-        self.notes.setdefault("floors", {})[f"{self._rule} {what}"] = {"found": count, "floor": minimum}
+        self.notes.setdefault("floors", {})[f"{self._rule} {what}"] = {"found": count, "floor": armed, "confirmed": minimum}
 
     def note(self, key: str, value: Any) -> None:
         self.notes[key] = value
